@@ -76,6 +76,7 @@ type frame struct {
 	flags     callflag.CallFlag
 	depth     int // entry 0, contract called by the entry 1, ...
 	activeTry int // try blocks of this contract invocation currently executing their TRY body
+	subNest   int // internal subroutine calls (CALL) of this contract invocation currently active
 	catchFin  int // try blocks of this contract invocation currently executing their CATCH block and having a FINALLY block
 	parent    *frame
 }
@@ -142,8 +143,13 @@ func (m *model) targetKeyHash(n *nop) (string, util.Uint160) {
 
 // callLike wraps everything that goes through System.Contract.Call: snapshot, run, restore when an exception leaves.
 func (m *model) callLike(fr *frame, eff callflag.CallFlag, run func() result) result {
+	if fr.subNest > 0 && fr.activeTry > 0 {
+		m.label("call-from-subroutine-under-try")
+	}
 	snap := m.st.clone()
-	wrappedLike := fr.activeTry > 0 && eff&(callflag.WriteStates|callflag.AllowNotify) != 0
+	// Signature of the listed finding: the caller's contract invocation still has a handler that can run code (a TRY body,
+	// or a CATCH block with a FINALLY block), which is when neo-go gives the callee a layer of its own.
+	wrappedLike := (fr.activeTry > 0 || fr.catchFin > 0) && eff&(callflag.WriteStates|callflag.AllowNotify) != 0
 	r := run()
 	switch r {
 	case rFatal:
@@ -174,7 +180,7 @@ func (m *model) callLike(fr *frame, eff callflag.CallFlag, run func() result) re
 	if m.pending && wrappedLike && !m.st.equal(snap) {
 		// Known shape: the callee completed normally while an older exception was pending in the caller (call made
 		// from a finally block during unwinding). By the property its effects stay (it did not fail).
-		m.quirk = "call completed while an exception was pending, caller contract has an active try"
+		m.quirk = "call completed while an exception was pending, caller contract has a live handler (TRY body, or CATCH with FINALLY)"
 	}
 	return rOK
 }
@@ -232,7 +238,10 @@ func (m *model) step(n *nop, fr *frame) result {
 	case "sub":
 		// Internal CALL: same contract invocation (same flags, same storage, try blocks of the callers still count),
 		// exceptions travel through it like through any nested block.
-		return m.exec(n.body, fr)
+		fr.subNest++
+		r := m.exec(n.body, fr)
+		fr.subNest--
+		return r
 	case "try":
 		return m.try(n, fr)
 	case "call":
@@ -250,7 +259,15 @@ func (m *model) step(n *nop, fr *frame) result {
 		if n.n < 0 {
 			return m.fatal(fr, "setFeePerByte rejects the value")
 		}
-		return m.callLike(fr, fr.flags, func() result { m.st.fee = n.n; return rOK })
+		return m.callLike(fr, fr.flags, func() result {
+			m.st.fee = n.n
+			if m.pending {
+				// A void method that completes while an exception is pending gets no Null pushed for the caller
+				// (vm.DynamicOnUnload with commit=false): the generated DROP underflows.
+				return m.fatal(fr, "void native call completed while an exception was pending: no return value")
+			}
+			return rOK
+		})
 	case "block", "unblock":
 		need := callflag.States | callflag.AllowNotify
 		if n.k == "unblock" {
